@@ -441,7 +441,7 @@ fn run_once(sc: &Scenario, prefix: &[usize]) -> Exec {
                 let step = sc.script[cpos].clone();
                 cpos += 1;
                 let (sck, r) = ctl.as_mut().unwrap();
-                let mut ack = |sck: &mut UnixStream, r: &mut BufReader<UnixStream>, cmd: String| {
+                let ack = |sck: &mut UnixStream, r: &mut BufReader<UnixStream>, cmd: String| {
                     let _ = writeln!(sck, "{cmd}");
                     let mut line = String::new();
                     let _ = r.read_line(&mut line);
@@ -836,6 +836,144 @@ impl Space for SchedSpace {
     }
 }
 
+// ---------------------------------------------------------------------------------------
+// Capture lifetimes: "the script sees every byte the child wrote" also holds later — after
+// the result has been returned from a function, kept across loop iterations, stored in an
+// array, passed on, or followed by another captured run. Run through the whole interpreter
+// (poisoning build: a reset frame reads as 0xDD) against the bytes the child is known to write.
+// ---------------------------------------------------------------------------------------
+
+const PLACEMENTS: &[&str] = &[
+    "top-level", "returned-from-function", "assigned-in-loop-read-after", "pushed-in-loop-read-after",
+    "parameter-read-in-callee-loop", "array-element-copied", "two-runs-first-read-last", "local-read-after-allocating-loop",
+];
+const CAPTURES: &[(&str, bool, bool)] = &[("both", true, true), ("stdout-only", true, false), ("stderr-only", false, true)];
+const PAYLOADS: &[usize] = &[1, 7, 100, 5000, 70_000];
+
+fn pattern(tag: &str, n: usize, upper: bool) -> Vec<u8> {
+    let t = tag.as_bytes();
+    (0..n).map(|i| if upper { t[i % t.len()].to_ascii_uppercase() } else { t[i % t.len()] }).collect()
+}
+
+struct Lifetimes;
+
+impl Lifetimes {
+    fn script(placement: usize, cap: (bool, bool), n: usize) -> (String, Vec<(String, usize)>) {
+        let child = {
+            let mut p = std::env::current_exe().expect("current exe");
+            p.pop();
+            p.join("vchild").display().to_string()
+        };
+        let mut s = format!(
+            "do mk(tag) start\nmake c get command(\"{child}\")\nc.arg(\"emitn\")\nc.arg(tag)\nc.arg(\"{n}\")\nc.arg(\"{}\")\nc.arg(\"3\")\n{}{}return c\nend\n",
+            n / 2 + 1,
+            if cap.0 { "c.stdout_capture()\n" } else { "" },
+            if cap.1 { "c.stderr_capture()\n" } else { "" },
+        );
+        s.push_str("do show(q) start\nshout(q.stdout())\nshout(q.stderr())\nshout(q.exit_code())\nend\n");
+        // the results shown, in order: (tag, how many times)
+        let mut shown: Vec<(String, usize)> = Vec::new();
+        match placement {
+            0 => {
+                s.push_str("make r get mk(\"ab\").run()\nshow(r)\n");
+                shown.push(("ab".into(), 1));
+            }
+            1 => {
+                s.push_str("do go(tag) start\nreturn mk(tag).run()\nend\nmake r get go(\"ab\")\nmake other get go(\"xyz\")\nshow(r)\nshow(other)\n");
+                shown.push(("ab".into(), 1));
+                shown.push(("xyz".into(), 1));
+            }
+            2 => {
+                s.push_str("make r get mk(\"first\").run()\nmake i get 0\njasi (i small pass 3) start\nr get mk(\"it{i}\").run()\ni get i add 1\nend\nshow(r)\n");
+                shown.push(("it2".into(), 1));
+            }
+            3 => {
+                s.push_str("make rs get []\nmake i get 0\njasi (i small pass 3) start\nrs.push(mk(\"el{i}\").run())\ni get i add 1\nend\nmake k get 0\njasi (k small pass 3) start\nshow(rs[k])\nk get k add 1\nend\n");
+                for i in 0..3 {
+                    shown.push((format!("el{i}"), 1));
+                }
+            }
+            4 => {
+                s.push_str("do twice(q) start\nmake k get 0\njasi (k small pass 2) start\nshow(q)\nk get k add 1\nend\nend\ntwice(mk(\"pq\").run())\n");
+                shown.push(("pq".into(), 2));
+            }
+            5 => {
+                s.push_str("make arr get [mk(\"uv\").run()]\nmake cp get arr\nshow(cp[0])\nshow(arr[0])\n");
+                shown.push(("uv".into(), 2));
+            }
+            6 => {
+                s.push_str("make r1 get mk(\"one\").run()\nmake r2 get mk(\"two\").run()\nshow(r1)\nshow(r2)\nshow(r1)\n");
+                shown.push(("one".into(), 1));
+                shown.push(("two".into(), 1));
+                shown.push(("one".into(), 1));
+            }
+            _ => {
+                s.push_str("do f() start\nmake r get mk(\"lm\").run()\nmake k get 0\nmake z get \"\"\njasi (k small pass 40) start\nz get z add \"xxxxxxxxxxxxxxxx\"\nk get k add 1\nend\nshow(r)\nreturn r\nend\nmake kept get f()\nshow(kept)\n");
+                shown.push(("lm".into(), 2));
+            }
+        }
+        (s, shown)
+    }
+}
+
+impl Space for Lifetimes {
+    fn id(&self) -> String {
+        "capture-lifetimes-poison".into()
+    }
+    fn size(&self) -> u64 {
+        (PLACEMENTS.len() * CAPTURES.len() * PAYLOADS.len()) as u64
+    }
+    fn profile(&self) -> Profile {
+        Profile::Poison
+    }
+    fn chunk(&self) -> u64 {
+        4
+    }
+    fn describe(&self, i: u64) -> String {
+        let i = i as usize;
+        let (p, c, n) = (i / (CAPTURES.len() * PAYLOADS.len()), (i / PAYLOADS.len()) % CAPTURES.len(), PAYLOADS[i % PAYLOADS.len()]);
+        format!("result {} / capture {} / {n} bytes on stdout, {} on stderr", PLACEMENTS[p], CAPTURES[c].0, n / 2 + 1)
+    }
+    fn run(&self, ctx: &mut Ctx, i: u64) -> Outcome {
+        use crate::drive::{self, End, Front, M0, M1, RunOpts, TV};
+        let i = i as usize;
+        let (p, c, n) = (i / (CAPTURES.len() * PAYLOADS.len()), (i / PAYLOADS.len()) % CAPTURES.len(), PAYLOADS[i % PAYLOADS.len()]);
+        let cap = (CAPTURES[c].1, CAPTURES[c].2);
+        let (src, shown) = Lifetimes::script(p, cap, n);
+        let mut want: Vec<TV> = Vec::new();
+        for (tag, times) in &shown {
+            for _ in 0..*times {
+                want.push(if cap.0 { TV::S(pattern(tag, n, false)) } else { TV::Z });
+                want.push(if cap.1 { TV::S(pattern(tag, n / 2 + 1, true)) } else { TV::Z });
+                want.push(TV::num(3.0));
+            }
+        }
+        for (mode, name) in [(M0, "frame reclamation on"), (M1, "frame reclamation off")] {
+            ctx.policy = naijascript::process::HostPolicy { allow_process: true, process: naijascript::process::ProcessCaps::defaults() };
+            let o = drive::run_pipeline(ctx, &src, mode, RunOpts::default());
+            ctx.policy = naijascript::process::HostPolicy::default();
+            let bad = |class: &str, detail: serde_json::Value| {
+                Outcome::bad("violation", Violation::new(class, self.describe(i as u64), json!({"mode": name, "script": src, "detail": detail})))
+            };
+            if !matches!(o.front, Front::Accepted) {
+                return bad("script-rejected", json!(o.show()));
+            }
+            if !matches!(o.end, End::Normal) {
+                return bad("captured-run-ended-in-error", json!(o.show()));
+            }
+            if o.out != want {
+                let first = o.out.iter().zip(want.iter()).position(|(a, b)| a != b).unwrap_or(o.out.len().min(want.len()));
+                return bad(
+                    "captured-output-read-later-differs-from-what-the-child-wrote",
+                    json!({"first_differing_value": first, "got": o.out.get(first).map(|v| format!("{v:?}").chars().take(200).collect::<String>()),
+                           "want": want.get(first).map(|v| format!("{v:?}").chars().take(200).collect::<String>())}),
+                );
+            }
+        }
+        Outcome::ok("ok", true)
+    }
+}
+
 pub fn spaces(tier: Tier) -> Vec<Box<dyn Space>> {
-    vec![Box::new(SchedSpace { thorough: tier == Tier::Thorough })]
+    vec![Box::new(SchedSpace { thorough: tier == Tier::Thorough }), Box::new(Lifetimes)]
 }
